@@ -210,14 +210,128 @@ fn fixed() -> Vec<Case> {
     v
 }
 
+// ------------------------------------------------------------------ the primary's link dies, over the real TCP front end
+// The cluster simulator restates the loop of the TCP handler; what the REAL handler does when the connection of the
+// primary ends (cleanly, with a reset while answers are unread, in the middle of a line) is exercised here: a node
+// that has been told its primary over a TCP connection must hold an election when that connection ends and, alone,
+// end up primary itself. Real threads and real time: the verdict is "no primary after 40 s" (an election alone takes
+// about one second), so a slow machine cannot fail it.
+
+#[derive(Clone, Debug, Serialize, Deserialize, PartialEq)]
+pub enum LinkEnd {
+    CleanClose,
+    /// a replicated write is sent and the socket closed without reading the acknowledgement and the answer
+    ResetWithUnreadAnswers,
+    HalfLineThenClose,
+}
+
+#[derive(Clone, Debug, Serialize, Deserialize)]
+pub struct TcpCase {
+    pub ends: Vec<LinkEnd>,
+}
+
+pub fn run_tcp_case(ctx: &Ctx, case: &TcpCase) -> Outcome {
+    use std::io::{Read, Write};
+    nundb::verif::set_link_handler(None);
+    let srv = crate::props::c10::TServer::start(ctx);
+    // the "primary": a listener that answers ok to whatever the node sends it over its own link
+    let listener = std::net::TcpListener::bind("127.0.0.1:0").expect("bind");
+    let pport = listener.local_addr().unwrap().port();
+    std::thread::spawn(move || {
+        for conn in listener.incoming() {
+            if let Ok(mut c) = conn {
+                std::thread::spawn(move || {
+                    let mut buf = [0u8; 4096];
+                    while let Ok(n) = c.read(&mut buf) {
+                        if n == 0 {
+                            break;
+                        }
+                        for _ in buf[..n].iter().filter(|b| **b == b'\n') {
+                            let _ = c.write_all(b"ok \n");
+                        }
+                    }
+                });
+            }
+        }
+    });
+    let pname = format!("127.0.0.1:{}", pport);
+    let mut fail = None;
+    for (i, end) in case.ends.iter().enumerate() {
+        // the node has no primary yet (as in its first second): the primary connects and says who it is
+        srv.node.dbs.node_state.swap(ClusterRole::Secoundary as usize, std::sync::atomic::Ordering::SeqCst);
+        let hello = format!("auth {} {}\nset-primary {}\n", crate::node::USER, crate::node::PWD, pname);
+        let mut s = match std::net::TcpStream::connect(("127.0.0.1", srv.tcp)) {
+            Ok(s) => s,
+            Err(e) => {
+                fail = Some(("C07|real-tcp|harness".to_string(), format!("connect: {}", e)));
+                break;
+            }
+        };
+        let _ = s.set_read_timeout(Some(std::time::Duration::from_millis(3000)));
+        let _ = s.write_all(hello.as_bytes());
+        let mut got = String::new();
+        let mut buf = [0u8; 1024];
+        while got.matches("ok").count() < 1 {
+            match s.read(&mut buf) {
+                Ok(n) if n > 0 => got.push_str(&String::from_utf8_lossy(&buf[..n])),
+                _ => break,
+            }
+        }
+        crate::transport::real_sleep(std::time::Duration::from_millis(200));
+        if srv.node.dbs.get_role() == ClusterRole::Primary {
+            fail = Some(("C07|real-tcp|harness".to_string(), format!("round {}: the node did not take {} as its primary: {:?}", i, pname, got)));
+            break;
+        }
+        match end {
+            LinkEnd::CleanClose => {
+                let _ = s.shutdown(std::net::Shutdown::Both);
+            }
+            LinkEnd::ResetWithUnreadAnswers => {
+                let _ = s.write_all(b"rp 5 replicate probe k -1 v\nrp 6 replicate probe k -1 w\n");
+                crate::transport::real_sleep(std::time::Duration::from_millis(30));
+            }
+            LinkEnd::HalfLineThenClose => {
+                let _ = s.write_all(b"rp 7 replicate probe k");
+            }
+        }
+        drop(s);
+        let t0 = std::time::Instant::now();
+        let mut ok = false;
+        while t0.elapsed() < std::time::Duration::from_secs(40) {
+            if srv.node.dbs.get_role() == ClusterRole::Primary {
+                ok = true;
+                break;
+            }
+            crate::transport::real_sleep(std::time::Duration::from_millis(50));
+        }
+        if !ok {
+            fail = Some((format!("C07|real-tcp|no-primary-after-the-primary-link-ended|{:?}", end), format!("round {}: 40 s after the connection of the primary ended ({:?}) the only live node is still role {} and names a dead primary", i, end, srv.node.dbs.get_role() as usize)));
+            break;
+        }
+    }
+    let mut out = Outcome::ok(true);
+    out.classes.push("primary-link-ends-over-real-tcp");
+    out.fail = fail;
+    out
+}
+
 pub fn run(ctx: &Ctx, rep: &mut Report) {
     enumerate(ctx, rep, "fixed-scenarios", fixed().into_iter(), |c| run_case(ctx, c));
     if rep.failures.is_empty() {
         let n = ctx.amount(2400, 40_000);
         explore_with(ctx, rep, "scenarios", n, 150, case_strategy(), |c| run_case(ctx, c));
     }
+    // (last: it switches the process to real threads and real time)
+    if rep.failures.is_empty() {
+        use LinkEnd::*;
+        let cases = vec![TcpCase { ends: vec![CleanClose, ResetWithUnreadAnswers] }, TcpCase { ends: vec![ResetWithUnreadAnswers, HalfLineThenClose, CleanClose] }, TcpCase { ends: vec![HalfLineThenClose, ResetWithUnreadAnswers, ResetWithUnreadAnswers] }];
+        enumerate(ctx, rep, "primary-link-ends-over-real-tcp", cases.into_iter(), |c| run_tcp_case(ctx, c));
+    }
 }
 
 pub fn replay(ctx: &Ctx, _engine: &str, case: &J) -> Result<Option<(String, String)>, String> {
+    if _engine == "primary-link-ends-over-real-tcp" {
+        return replay_guarded::<TcpCase>(ctx, case, |c| run_tcp_case(ctx, c));
+    }
     replay_guarded::<Case>(ctx, case, |c| run_case(ctx, c))
 }
